@@ -15,7 +15,7 @@ type Val struct {
 	L []Val
 }
 
-func B(b []byte) Val      { return Val{K: 'x', B: append([]byte{}, b...)} }
+func B(b []byte) Val      { trackOutput(b); return Val{K: 'x', B: append([]byte{}, b...)} }
 func S(s string) Val      { return Val{K: 'x', B: []byte(s)} }
 func I(i int64) Val       { return Val{K: 'n', N: big.NewInt(i)} }
 func U(u uint64) Val      { return Val{K: 'n', N: new(big.Int).SetUint64(u)} }
